@@ -80,8 +80,9 @@ type item struct {
 }
 
 type op struct {
-	Kind  string    `json:"kind"` // req | resp | adv | pair | burst
+	Kind  string    `json:"kind"` // req | resp | adv | pair | burst | readgate | stepback
 	At    int64     `json:"at_ns"`
+	Back  int64     `json:"wall_clock_set_back_ns,omitempty"` // stepback
 	Key   keySpec   `json:"key,omitempty"`
 	Resp  *respSpec `json:"resp,omitempty"`
 	Fire  bool      `json:"fire_due_sleepers,omitempty"`
@@ -694,6 +695,10 @@ func execute(c caseSpec, o *oracle) (viol []violation, err error) {
 				o.inc("nt:re-store-while-old-sleeper-pending")
 			}
 			probe(i)
+		case "stepback":
+			// the wall clock is set back (NTP step, VM resume, date -s); timers are not affected
+			r.clk.StepWall(-time.Duration(p.Back))
+			o.inc("wall-clock-set-back")
 		case "readgate":
 			// a request finds its entry, and while it is about to test the entry's freshness (its clock reading)
 			// the entry's time-to-live ends and the clean-up runs; then the request goes on
@@ -979,6 +984,10 @@ func genCase(t *rapid.T, plugin string, maxOps int) caseSpec {
 		c.Cfg.RetryType = rapid.SampledFrom([]string{"relative", "relative", "absolute"}).Draw(t, "type")
 		c.Cfg.Relevant = rapid.SampledFrom([][]int{{429}, {429, 503}, {429, 503, 500}}).Draw(t, "relevant")
 	}
+	// one caching case in four: the wall clock is set back now and then while the timers run on (time-to-live is
+	// elapsed time); in these cases due timers always fire and no reader is held at its freshness test - a late
+	// timer or a held reader is covered by the wall-clock test alone, which a wall clock set back cannot give
+	wallSteps := plugin == "caching" && rapid.IntRange(0, 3).Draw(t, "wallsteps") == 1
 	keys := genKeyPool(t, plugin)
 	minOps := rapid.SampledFrom([]int{1, 4, 10, 20}).Draw(t, "minops") // rapid's default mean length is ~6
 	ins := rapid.SliceOfN(genIntent(plugin, big), minOps, maxOps).Draw(t, "ops")
@@ -1016,6 +1025,17 @@ func genCase(t *rapid.T, plugin string, maxOps int) caseSpec {
 	}
 	for _, in := range ins {
 		k := keys[in.Key%len(keys)]
+		if wallSteps {
+			if in.Kind == "readgate" {
+				in.Kind = "req"
+			}
+			if in.Kind == "adv" {
+				in.Fire = true
+				if in.Delta%2 == 0 {
+					c.Ops = append(c.Ops, op{Kind: "stepback", At: now, Back: []int64{3600 * sec, sec, 10 * int64(time.Millisecond), 1}[in.Pick%4]})
+				}
+			}
+		}
 		switch in.Kind {
 		case "req":
 			c.Ops = append(c.Ops, op{Kind: "req", At: now, Key: k})
